@@ -1097,6 +1097,9 @@ func ruleRecur(c *Ctx) {
 	}
 	// condition-only loops
 	c.checkCondLoops()
+	if len(c.extendsWalks) > 0 && !c.extendsChecked {
+		c.checkExtendsAcyclic()
+	}
 }
 
 func (c *Ctx) cycleReviewed(names []string) (string, bool) {
@@ -1206,6 +1209,10 @@ func innermostLoop(b *ssa.BasicBlock) map[*ssa.BasicBlock]bool {
 
 // checkExtendsAcyclic: Map.validate (or a repo function it calls) walks `Extends` chains with a visited set and reports an error on a repeat.
 func (c *Ctx) checkExtendsAcyclic() {
+	if c.extendsChecked {
+		return
+	}
+	c.extendsChecked = true
 	v := c.fn("chord", "Map.validate")
 	if v == nil {
 		c.missing("chord.Map.validate")
@@ -1323,6 +1330,13 @@ func (c *Ctx) checkCondLoops() {
 					n++
 					key := fmt.Sprintf("%s#%d", name, n)
 					c.site(1)
+					// a recognised termination measure needs no table entry (and survives moving the loop elsewhere)
+					if sfn := c.fn(short(p.PkgPath), strings.TrimPrefix(name, short(p.PkgPath)+".")); sfn != nil {
+						if why, ok := c.loopMeasure(ssaLoopOf(sfn, fs)); ok {
+							c.ok("loop|"+key, c.pos(fs.Pos()), name, "measure: "+why)
+							return true
+						}
+					}
 					if why, ok := reviewedCondLoops[key]; ok {
 						c.ok("loop|"+key, c.pos(fs.Pos()), name, "reviewed: "+why)
 					} else {
